@@ -14,8 +14,8 @@ Line protocol for C10.
 
   pl  <same tokens as st>   the first <pre> events are residual frames on an idle pooled connection
       obs:  reused <0|1> <st observation of the remaining events>
-  fw  me <hex> up <len> <seed> down <len> <seed> cs <k> <size>*k
-      obs:  up <hex> down <hex> done <0|1>
+  fw  me <hex> up <len> <seed> down <len> <seed> cs <k> <size>*k [opt <ct> <cl> <ord>]
+      obs:  up <hex> down <hex> done <0|1> cnt <sent|na> <recv|na> closes <n|na>
 
 Payloads are `(len, seed)` pairs expanded by `genBytes` (same function in the Go harness).
 -/
@@ -306,6 +306,8 @@ structure FwCase where
   up : Bytes
   down : Bytes
   cs : List Nat
+  ct : Bool    -- config has traffic counters
+  cl : Bool    -- config has a LocalConnCloser
 
 def parseFw : List String → Option FwCase
   | "me" :: me :: "up" :: ul :: us :: "down" :: dl :: ds :: ts => do
@@ -314,18 +316,28 @@ def parseFw : List String → Option FwCase
     let us ← us.toNat?
     let dl ← dl.toNat?
     let ds ← ds.toNat?
-    let (cs, _) ← parseSizes "cs" ts
-    pure ⟨me, genBytes ul us, genBytes dl ds, cs⟩
+    let (cs, ts) ← parseSizes "cs" ts
+    -- optional: opt <ct> <cl> <ord>   (ord = which direction finishes first: harness timing only)
+    match ts with
+    | "opt" :: ct :: cl :: _ => pure ⟨me, genBytes ul us, genBytes dl ds, cs, ct == "1", cl == "1"⟩
+    | _ => pure ⟨me, genBytes ul us, genBytes dl ds, cs, false, false⟩
   | _ => none
 
 def fwObsStr (o : FwObs) : String :=
-  s!"up {hexOfBytes o.up} down {hexOfBytes o.down} done {if o.done then 1 else 0}"
+  let cnt := match o.cnt with | some (a, b) => s!"{a} {b}" | none => "na na"
+  let cl := match o.closes with | some n => s!"{n}" | none => "na"
+  s!"up {hexOfBytes o.up} down {hexOfBytes o.down} done {if o.done then 1 else 0} cnt {cnt} closes {cl}"
 
 def parseFwObs : List String → Option FwObs
-  | ["up", u, "down", d, "done", x] => do
+  | ["up", u, "down", d, "done", x, "cnt", a, b, "closes", c] => do
     let u ← bytesOfHex u
     let d ← bytesOfHex d
-    if x == "0" || x == "1" then pure ⟨u, d, x == "1"⟩ else none
+    let cnt ← (if a == "na" && b == "na" then some none else do
+      let a ← a.toNat?
+      let b ← b.toNat?
+      pure (some (a, b)))
+    let cl ← (if c == "na" then some none else c.toNat?.map some)
+    if x == "0" || x == "1" then pure ⟨u, d, x == "1", cnt, cl⟩ else none
   | _ => none
 
 def runModel (ts : List String) : String :=
@@ -338,7 +350,7 @@ def runModel (ts : List String) : String :=
     | none => "bad-case"
   | "fw" :: rest =>
     match parseFw rest with
-    | some c => fwObsStr (runForward c.me (chunkBy c.cs c.up) c.down)
+    | some c => fwObsStr (runForward c.me (chunkBy c.cs c.up) c.down c.ct c.cl)
     | none => "bad-case"
   | "st" :: rest =>
     match parseSt rest with
@@ -368,7 +380,7 @@ def runHolds (caseToks obsToks : List String) : String :=
     | none, _ => "bad-case"
   | "fw" :: rest =>
     match parseFw rest, parseFwObs obsToks with
-    | some c, some o => boolStr (holdsFw c.up c.down o)
+    | some c, some o => boolStr (holdsFw c.up c.down c.ct c.cl o)
     | some _, none => "false"
     | none, _ => "bad-case"
   | "st" :: rest =>
